@@ -111,25 +111,46 @@ func computeOps(toks []int64) (o pubOutcome) {
 	o.ok = true
 	p := sharding.VerifNewPublisher(cfg)
 	prev := map[string][]string{}
+	const (
+		cacheEmpty = iota
+		cacheFresh
+		cacheStale
+	)
+	cacheState := cacheEmpty
 	for k := range h.steps {
 		in := h.stepInput(k)
 		nodes := buildNodes(in)
 		p.SetNodes(nodes)
 		p.SetMetrics(buildProvider(in, k%2).m)
+		// which schedulers had the CURRENT calculation applied by some worker item of this
+		// step (bookkeeping for the signature only): a global sync does it for all; a key
+		// does it when the cache is empty/expired (fallback) or was filled during this step
+		processed := map[string]bool{}
+		if cacheState == cacheFresh {
+			cacheState = cacheStale // filled by a sync on the previous inputs
+		}
 		for _, op := range h.ops[k] {
 			switch op.code {
 			case 1:
 				p.HideShards(schedNames(op.hidden))
 				p.SyncShards()
+				cacheState = cacheFresh
+				for _, sp := range h.specs {
+					processed[schedName(sp.name)] = true
+				}
 			case 2:
 				p.HideShards(schedNames(op.hidden))
 				p.ProcessKey(schedName(op.s))
+				if cacheState != cacheStale {
+					processed[schedName(op.s)] = true
+				}
 			case 3:
 				if op.s == 0 {
 					p.ClearAssignmentCache()
 				} else {
 					p.AgeAssignmentCache(6 * time.Minute)
 				}
+				cacheState = cacheEmpty
 			case 4:
 				p.DeleteShard(schedName(op.s))
 			default:
@@ -139,14 +160,8 @@ func computeOps(toks []int64) (o pubOutcome) {
 		p.HideShards(nil)
 		pub := p.Published()
 		calc, _ := realRun(in, 1-k%2, listerNodes(nodes, false))
-		expl := false
-		for s, c := range calc {
-			if old, had := prev[s]; had && !sameList(old, c) && thresholdSaysNoUpdate(old, c) {
-				expl = true
-			}
-		}
 		o.pubs = append(o.pubs, encResult(pub))
-		o.explained = append(o.explained, expl)
+		o.judge = append(o.judge, judgeStep(prev, pub, calc, processed))
 		prev = pub
 	}
 	return o
@@ -187,13 +202,7 @@ func opsLaws(toks []int64, law func(lsel int, lin []int64, sig string)) {
 	}
 	h := decodeOpsHist(toks)
 	for k := range h.steps {
-		sig := ""
-		if o.explained[k] {
-			sig = sigHysteresis
-		}
-		in := h.stepInput(k).tokens()
-		law(110, o.pubs[k], sig)
-		law(111, append(append([]int64{}, in...), o.pubs[k]...), sig)
+		emitJudged(o.judge[k], listedTokens(h.stepInput(k)), law)
 	}
 }
 
@@ -233,6 +242,18 @@ func genOpsHistory(r *vh.Rng) *opsHistT {
 				}
 			}
 			return out
+		}
+		if len(h.ops) > 0 && len(names) > 1 && r.Chance(1, 5) {
+			// the second known finding's situation: the cache is gone and only SOME schedulers'
+			// keys arrive (NodeShard events): those shards are republished from today's
+			// calculation, the others keep what an older calculation gave them
+			ops = append(ops, opT{code: 3, s: int64(r.Intn(2))})
+			for _, s := range subset(names, 1, 2) {
+				ops = append(ops, opT{code: 2, s: s})
+				exists[s] = true
+			}
+			h.ops = append(h.ops, ops)
+			continue
 		}
 		if r.Chance(2, 5) {
 			ops = append(ops, opT{code: 1, hidden: subset(absent(), 1, 2)})
@@ -293,10 +314,17 @@ func fixedOpsHistories() []genCase {
 		}
 		return h
 	}
+	// second known finding in small (second audit N1): sync, then the utilisations are
+	// reversed, the cache has expired and only b's key arrives
+	n1 := mk([][]opT{{{code: 1}}, {{code: 3, s: 1}, {code: 2, s: 2}}})
+	for i := range n1.steps[1].metrics {
+		n1.steps[1].metrics[i].util = 100 * int64(4-i)
+	}
 	return []genCase{
+		{id: "fallback-one-key-after-metrics-change", kind: "publish-ops", sel: 8, ops: n1},
 		{id: "fallback-predecessor-shard-missing", kind: "publish-ops", sel: 8,
 			ops: mk([][]opT{{{code: 3}, {code: 2, s: 2}, {code: 2, s: 1}}})},
-		{id: "fallback-predecessor-shard-lagging", kind: "publish-ops", sel: 8,
+		{id: "fallback-predecessor-shard-hidden", kind: "publish-ops", sel: 8,
 			ops: mk([][]opT{{{code: 1}}, {{code: 3, s: 1}, {code: 4, s: 2}, {code: 2, s: 2, hidden: []int64{1}}, {code: 2, s: 1}}})},
 	}
 }
@@ -308,12 +336,11 @@ func emitOps(c genCase, emit func(id string, sel int, in []int64, kind string, n
 	for _, l := range c.ops.ops {
 		nops += len(l)
 	}
-	stale := 0
-	for _, e := range o.explained {
-		if e {
-			stale++
-		}
+	staleH, staleU := 0, 0
+	for _, j := range o.judge {
+		staleH += len(j.staleH)
+		staleU += len(j.staleU)
 	}
 	emit(c.id, 8, c.toks, c.kind, o.ok && nops >= 3,
-		map[string]any{"steps": len(c.ops.steps), "ops": nops, "schedulers": len(c.ops.specs), "steps_with_stale_publication": stale})
+		map[string]any{"steps": len(c.ops.steps), "ops": nops, "schedulers": len(c.ops.specs), "shards_left_stale_by_threshold": staleH, "shards_left_stale_by_unprocessed_key": staleU})
 }
